@@ -3,9 +3,9 @@
 (.cache/logs/seedrun_<name>_<prop>.log, produced by tools/run_r2.sh / tools/run_seed.sh)."""
 import json, os, re, sys
 ROOT = os.path.dirname(os.path.dirname(os.path.abspath(__file__)))
-DETECTED_BY_OTHER = {'C03_b': 'C19'}     # seeds whose breakage shows under another property's check (see DESIGN §5)
+DETECTED_BY_OTHER = {'C03_b': 'C19', 'C03_g': 'C19'}     # seeds whose breakage shows under another property's check (see DESIGN §5)
 for d in sorted(os.listdir(os.path.join(ROOT, 'seeded'))):
-    if not re.match(r'^C\d\d_[a-f]$', d):
+    if not re.match(r'^C\d\d_[a-g]$', d):
         continue
     sd = os.path.join(ROOT, 'seeded', d)
     prop = d[:3]
@@ -22,7 +22,7 @@ for d in sorted(os.listdir(os.path.join(ROOT, 'seeded'))):
     demo_fails = (conf.get('demo_exit_with_patch', 0) != 0) or (conf.get('demo_alloc_with_patch', 0) != 0)
     demo_ok = conf.get('demo_exit_without_patch') == 0 and conf.get('demo_alloc_without_patch', 0) == 0
     meta = {
-        'seed': d, 'round': {'a': 2, 'b': 2, 'c': 3, 'd': 3, 'e': 4, 'f': 5}[d[-1]], 'breaks_property': prop,
+        'seed': d, 'round': {'a': 2, 'b': 2, 'c': 3, 'd': 3, 'e': 4, 'f': 5, 'g': 6}[d[-1]], 'breaks_property': prop,
         'needs_to_manifest': ' '.join(readme.split())[:600],
         'origin': 'written by an independent sub-agent given only the property text and its own scratch worktree (no access to /verif)',
         'confirmed_by_me': {'how': 'tools/confirm_seed.sh %s in a scratch worktree of /repo HEAD' % d,
